@@ -569,7 +569,26 @@ def check_clear(run, model, rule, info):
                  '' if not bad else ('task_done() is reachable on the path where get_nowait() raised (nothing was taken): Queue.task_done then raises '
                                      'ValueError("task_done() called too many times"), so clear() fails on a queue with no unfinished tasks'),
                  node=c, obligation=True)
-    # a bare `except:` that swallows everything is fine only if its body cannot raise
+    # every token get of clear() is non-blocking and tolerates an empty token queue: the consumer thread of a started active object takes tokens at any moment, so
+    # "not empty" observed before the get says nothing about the get (and a blocking get would wait for a post that may never come)
+    import ast as _ast
+    par = parents(f.node)
+    for n, c, m in gets:
+        nonblocking = m == 'get_nowait' or any(kw.arg == 'block' and isinstance(kw.value, _ast.Constant) and kw.value.value is False for kw in c.keywords) or \
+            (c.args and isinstance(c.args[0], _ast.Constant) and c.args[0].value is False)
+        p_ = par.get(c)
+        caught = False
+        while p_ is not None and p_ is not f.node:
+            if isinstance(p_, _ast.Try) and any(any(x is c for x in _ast.walk(b_)) for b_ in p_.body):
+                for hd in p_.handlers:
+                    if hd.type is None or any(nm_ in norm(hd.type) for nm_ in ('Empty', 'Exception', 'BaseException')):
+                        caught = True
+            p_ = par.get(p_)
+        ok = nonblocking and caught
+        run.inst(rule, f, 'token get of clear() is non-blocking and tolerates an empty token queue', ok,
+                 '' if ok else ('clear() takes a wake-up token with %s %s: on a started active object the consumer thread can take the last token between any emptiness test and this '
+                                'get, so clear() %s' % (norm(c), 'outside a handler for queue.Empty' if nonblocking else '(blocking)',
+                                                         'raises queue.Empty to its caller' if nonblocking else 'blocks for ever')), node=c, obligation=True)
     run.floor('clear(): token get sites', len(gets), 1)
 
 
